@@ -1,1 +1,904 @@
-//! C09 helpers (filled in below).
+//! C09 helpers: scenarios written through `EncryptedStore`, the tamper-site
+//! enumerator over the inner store's content, the read battery with its
+//! "original bytes or an error" oracle, and the metadata/nonce inspection
+//! used by the leak part.
+
+use crate::fix::{SECRET, Wrap, build, payload};
+use crate::ops::split_parts;
+use bytes::Bytes;
+use cbor2::Value as Cbor;
+use futures::TryStreamExt;
+use object_store::{
+    GetOptions, GetRange, ObjectStore, ObjectStoreExt, PutMultipartOptions, memory::InMemory, path::Path,
+};
+use serde::{Deserialize, Serialize};
+use std::collections::BTreeMap;
+use std::sync::Arc;
+use vcore::ctlstore::{Content, restore, snapshot};
+
+pub const CS: u64 = 16;
+pub const _SECRET: [u8; 32] = SECRET;
+
+#[derive(Clone, Copy, Debug, PartialEq, Eq, Hash, Serialize, Deserialize)]
+pub enum Writer {
+    Put,
+    Multipart,
+    Copy,
+    Rename,
+}
+
+pub const WRITERS: [Writer; 4] = [Writer::Put, Writer::Multipart, Writer::Copy, Writer::Rename];
+
+/// What the untampered store reports for one key.
+#[derive(Clone, Debug)]
+pub struct Original {
+    pub plain: Bytes,
+    pub e_tag: Option<String>,
+    pub lm_ms: i64,
+}
+
+#[derive(Clone)]
+pub struct Scenario {
+    /// symbolic object name (`meta/<key>`, `gen/<key>/CUR`, `gen/a/OLD`) ->
+    /// real backend path (generation names carry a random salt, so tamper
+    /// sites and replays name objects symbolically)
+    pub sym: BTreeMap<String, String>,
+    pub size: usize,
+    pub writer: Writer,
+    /// inner store content: the committed objects plus the replaced (older)
+    /// generation of key `a`, kept as a leftover a crash would leave
+    pub base: Content,
+    pub original: BTreeMap<String, Original>,
+    /// path of the leftover older generation object of `a`
+    pub old_gen_path: String,
+    /// the metadata document that pointed at it
+    pub old_meta: Bytes,
+    pub old_plain: Bytes,
+    /// every plaintext written while building the scenario
+    pub plaintexts: Vec<Bytes>,
+}
+
+pub fn sizes() -> Vec<usize> {
+    let cs = CS as usize;
+    vec![0, 1, cs - 1, cs, cs + 1, 2 * cs + 3]
+}
+
+fn enc(inner: Arc<InMemory>) -> Arc<dyn ObjectStore> {
+    build(Wrap::Enc(CS), inner)
+}
+
+/// Same store with `with_strict_metadata_auth()` (legacy, unauthenticated
+/// documents are rejected).
+fn enc_strict(inner: Arc<InMemory>) -> Arc<dyn ObjectStore> {
+    Arc::new(
+        anda_object_store::EncryptedStoreBuilder::with_secret(inner, 1000, SECRET)
+            .with_chunk_size(CS)
+            .with_strict_metadata_auth()
+            .build(),
+    )
+}
+
+/// Writes the scenario through a real `EncryptedStore` (chunk size 16):
+/// key `a` first gets an older generation, then its final content by
+/// `writer`; key `a/b` holds a different payload of the same size.
+pub async fn build_scenario(size: usize, writer: Writer) -> Scenario {
+    anda_db_utils::verif::set_clock(Some((1_700_000_000_000, 1000)));
+    let inner = Arc::new(InMemory::new());
+    let store = enc(inner.clone());
+    let (p_old, p1, p2) = (payload(size, 2), payload(size, 0), payload(size, 1));
+    let (a, ab, c) = (Path::from("a"), Path::from("a/b"), Path::from("c"));
+    store.put(&a, p_old.clone().into()).await.expect("put old generation");
+    let s0 = snapshot(&inner);
+    let old_gen_path = s0.keys().find(|k| k.starts_with("gen/a/")).expect("old generation").clone();
+    let old_meta = s0.get("meta/a").expect("old meta").clone();
+    store.put(&ab, p2.clone().into()).await.expect("put a/b");
+    match writer {
+        Writer::Put => {
+            store.put(&a, p1.clone().into()).await.expect("put");
+        }
+        Writer::Multipart => {
+            let cs = CS as usize;
+            let parts: Vec<u32> = if size > cs {
+                vec![(cs - 1) as u32, (size - (cs - 1)) as u32]
+            } else {
+                vec![(size / 2) as u32, (size - size / 2) as u32]
+            };
+            let mut up = store.put_multipart_opts(&a, PutMultipartOptions::default()).await.expect("multipart");
+            for p in split_parts(&p1, &parts) {
+                up.put_part(p).await.expect("part");
+            }
+            up.complete().await.expect("complete");
+        }
+        Writer::Copy => {
+            store.put(&c, p1.clone().into()).await.expect("put c");
+            store.copy(&c, &a).await.expect("copy");
+        }
+        Writer::Rename => {
+            store.put(&c, p1.clone().into()).await.expect("put c");
+            store.rename(&c, &a).await.expect("rename");
+        }
+    }
+    let mut base = snapshot(&inner);
+    assert!(!base.contains_key(&old_gen_path), "replaced generation should have been reclaimed");
+    base.insert(old_gen_path.clone(), s0.get(&old_gen_path).unwrap().clone());
+    let mut original = BTreeMap::new();
+    let mut keys = vec![("a", p1.clone()), ("a/b", p2.clone())];
+    if writer == Writer::Copy {
+        keys.push(("c", p1.clone()));
+    }
+    for (k, plain) in keys {
+        let m = store.head(&Path::from(k)).await.expect("head");
+        original.insert(k.to_string(), Original { plain, e_tag: m.e_tag, lm_ms: m.last_modified.timestamp_millis() });
+    }
+    let mut sym = BTreeMap::new();
+    for p in base.keys() {
+        let name = if p.starts_with("meta/") {
+            p.clone()
+        } else if *p == old_gen_path {
+            "gen/a/OLD".to_string()
+        } else {
+            format!("gen/{}/CUR", key_of(p))
+        };
+        assert!(sym.insert(name, p.clone()).is_none(), "two current generations for one key");
+    }
+    Scenario {
+        sym,
+        size,
+        writer,
+        base,
+        original,
+        old_gen_path,
+        old_meta,
+        old_plain: p_old.clone(),
+        plaintexts: vec![p_old, p1, p2],
+    }
+}
+
+// ---------------------------------------------------------------------------
+// tamper sites
+
+#[derive(Clone, Debug, PartialEq, Eq, Serialize, Deserialize)]
+pub enum CborEdit {
+    Remove(Vec<String>),
+    SetNull(String),
+    ZeroBytes(String),
+    SetInt(String, u64),
+    ZeroTag(usize),
+    RemoveTag(usize),
+    DupLastTag,
+    SwapTags(usize, usize),
+    /// set these fields to the values they have in another metadata document
+    CopyFields { fields: Vec<String>, from: String },
+    /// probe (two edits at once): strip an, at, av, g, m, c so the document
+    /// looks like pre-authentication legacy metadata, and alter the size
+    StripAndResize(u64),
+}
+
+#[derive(Clone, Debug, PartialEq, Eq, Serialize, Deserialize)]
+pub enum Tamper {
+    Flip { path: String, byte: usize, bit: u8 },
+    Truncate { path: String, len: usize },
+    Extend { path: String, extra: Vec<u8> },
+    SwapChunks { path: String, i: usize, j: usize },
+    /// exchange the contents of two backend objects
+    SwapObjects { a: String, b: String },
+    /// `dst` receives the bytes of `src`
+    ReplaceObject { dst: String, src: String },
+    Cbor { path: String, edit: CborEdit },
+    /// probe (no verdict): restore the previous metadata document of `a`
+    /// while its generation object is still in the backend
+    Rollback,
+    /// probe (two objects changed): strip the document of `key` down to the
+    /// legacy look and place its ciphertext where legacy metadata points
+    /// (`data/<key>`)
+    StripAndRelocate { key: String },
+}
+
+pub const STRIP_ALL: [&str; 6] = ["an", "at", "av", "g", "m", "c"];
+
+impl Tamper {
+    /// Probes change more than one site (or restore a complete earlier
+    /// commit); their outcome is recorded, not judged.
+    pub fn is_probe(&self) -> bool {
+        matches!(
+            self,
+            Tamper::Rollback | Tamper::StripAndRelocate { .. } | Tamper::Cbor { edit: CborEdit::StripAndResize(_), .. }
+        )
+    }
+}
+
+impl Tamper {
+    /// Shape label for signatures / statistics.
+    pub fn kind(&self) -> String {
+        let obj = |p: &str| if p.starts_with("meta/") { "meta" } else { "payload" };
+        match self {
+            Tamper::Flip { path, .. } => format!("flip-{}", obj(path)),
+            Tamper::Truncate { path, .. } => format!("truncate-{}", obj(path)),
+            Tamper::Extend { path, .. } => format!("extend-{}", obj(path)),
+            Tamper::SwapChunks { .. } => "swap-chunks".into(),
+            Tamper::SwapObjects { a, .. } => format!("swap-{}-objects", obj(a)),
+            Tamper::ReplaceObject { dst, .. } => format!("replace-{}-object", obj(dst)),
+            Tamper::Cbor { edit, .. } => match edit {
+                CborEdit::Remove(f) => format!("cbor-remove-{}", f.join("+")),
+                CborEdit::SetNull(f) => format!("cbor-null-{f}"),
+                CborEdit::ZeroBytes(f) => format!("cbor-zero-{f}"),
+                CborEdit::SetInt(f, _) => format!("cbor-set-{f}"),
+                CborEdit::ZeroTag(_) => "cbor-zero-t[i]".into(),
+                CborEdit::RemoveTag(_) => "cbor-remove-t[i]".into(),
+                CborEdit::DupLastTag => "cbor-append-t".into(),
+                CborEdit::SwapTags(..) => "cbor-swap-t[i,j]".into(),
+                CborEdit::StripAndResize(_) => "probe-strip-all+resize".into(),
+                CborEdit::CopyFields { fields, from } => format!(
+                    "cbor-copy-{}-from-{}",
+                    fields.join("+"),
+                    if from == "OLD" { "older-generation" } else { "other-key" }
+                ),
+            },
+            Tamper::Rollback => "probe-rollback".into(),
+            Tamper::StripAndRelocate { .. } => "probe-strip-all+relocate-payload".into(),
+        }
+    }
+
+    /// Logical keys whose backend objects this tamper touches.
+    pub fn keys(&self) -> Vec<String> {
+        let paths: Vec<&String> = match self {
+            Tamper::Flip { path, .. }
+            | Tamper::Truncate { path, .. }
+            | Tamper::Extend { path, .. }
+            | Tamper::SwapChunks { path, .. }
+            | Tamper::Cbor { path, .. } => vec![path],
+            Tamper::SwapObjects { a, b } => vec![a, b],
+            Tamper::ReplaceObject { dst, .. } => vec![dst],
+            Tamper::Rollback => return vec!["a".into()],
+            Tamper::StripAndRelocate { key } => return vec![key.clone()],
+        };
+        let mut out: Vec<String> = paths.into_iter().map(|p| key_of(p)).collect();
+        out.sort();
+        out.dedup();
+        out
+    }
+}
+
+/// `meta/<key>` or `gen/<key>/<generation>` -> `<key>`.
+pub fn key_of(path: &str) -> String {
+    if let Some(k) = path.strip_prefix("meta/") {
+        return k.to_string();
+    }
+    if let Some(rest) = path.strip_prefix("gen/") {
+        return rest.rsplit_once('/').map(|(k, _)| k.to_string()).unwrap_or_default();
+    }
+    path.to_string()
+}
+
+fn map_mut(v: &mut Cbor) -> &mut Vec<(Cbor, Cbor)> {
+    match v {
+        Cbor::Map(m) => m,
+        _ => panic!("metadata document is not a CBOR map"),
+    }
+}
+
+fn field<'a>(m: &'a mut Vec<(Cbor, Cbor)>, f: &str) -> Option<&'a mut Cbor> {
+    m.iter_mut().find(|(k, _)| matches!(k, Cbor::Text(t) if t == f)).map(|(_, v)| v)
+}
+
+pub fn decode(doc: &[u8]) -> Cbor {
+    cbor2::from_slice::<Cbor>(doc).expect("metadata document decodes as generic CBOR")
+}
+
+pub fn encode(v: &Cbor) -> Bytes {
+    Bytes::from(cbor2::to_vec(v).expect("encode CBOR"))
+}
+
+pub fn field_names(doc: &[u8]) -> Vec<String> {
+    let mut v = decode(doc);
+    map_mut(&mut v)
+        .iter()
+        .filter_map(|(k, _)| if let Cbor::Text(t) = k { Some(t.clone()) } else { None })
+        .collect()
+}
+
+pub fn get_field(doc: &[u8], f: &str) -> Option<Cbor> {
+    let mut v = decode(doc);
+    field(map_mut(&mut v), f).cloned()
+}
+
+fn n_tags(doc: &[u8]) -> usize {
+    match get_field(doc, "t") {
+        Some(Cbor::Array(a)) => a.len(),
+        _ => 0,
+    }
+}
+
+/// Applies a CBOR-level edit; `other` resolves the source document of
+/// `CopyFields`.
+fn edit_doc(doc: &[u8], edit: &CborEdit, other: &dyn Fn(&str) -> Option<Bytes>) -> Option<Bytes> {
+    let mut v = decode(doc);
+    let m = map_mut(&mut v);
+    match edit {
+        CborEdit::Remove(fs) => {
+            for f in fs {
+                m.retain(|(k, _)| !matches!(k, Cbor::Text(t) if t == f));
+            }
+        }
+        CborEdit::SetNull(f) => *field(m, f)? = Cbor::Null,
+        CborEdit::ZeroBytes(f) => match field(m, f)? {
+            Cbor::Bytes(b) => b.iter_mut().for_each(|x| *x = 0),
+            _ => return None,
+        },
+        CborEdit::SetInt(f, n) => *field(m, f)? = Cbor::Integer((*n).into()),
+        CborEdit::ZeroTag(i) => match field(m, "t")? {
+            Cbor::Array(a) => match a.get_mut(*i)? {
+                Cbor::Bytes(b) => b.iter_mut().for_each(|x| *x = 0),
+                _ => return None,
+            },
+            _ => return None,
+        },
+        CborEdit::RemoveTag(i) => match field(m, "t")? {
+            Cbor::Array(a) if *i < a.len() => {
+                a.remove(*i);
+            }
+            _ => return None,
+        },
+        CborEdit::DupLastTag => match field(m, "t")? {
+            Cbor::Array(a) => {
+                let last = a.last().cloned().unwrap_or(Cbor::Bytes(vec![0u8; 16]));
+                a.push(last);
+            }
+            _ => return None,
+        },
+        CborEdit::SwapTags(i, j) => match field(m, "t")? {
+            Cbor::Array(a) if *i < a.len() && *j < a.len() => a.swap(*i, *j),
+            _ => return None,
+        },
+        CborEdit::StripAndResize(n) => {
+            m.retain(|(k, _)| !matches!(k, Cbor::Text(t) if STRIP_ALL.contains(&t.as_str())));
+            *field(m, "s")? = Cbor::Integer((*n).into());
+        }
+        CborEdit::CopyFields { fields, from } => {
+            let src = other(from)?;
+            for f in fields {
+                let val = get_field(&src, f)?;
+                match field(m, f) {
+                    Some(slot) => *slot = val,
+                    None => m.push((Cbor::Text(f.clone()), val)),
+                }
+            }
+        }
+    }
+    Some(encode(&v))
+}
+
+/// Applies one tamper to a copy of `base`. `None` = the site does not exist
+/// in this scenario or leaves the content byte-identical.
+pub fn apply_tamper(sc: &Scenario, t: &Tamper) -> Option<Content> {
+    let mut c = sc.base.clone();
+    let real = |name: &String| sc.sym.get(name).cloned();
+    let t = &match t.clone() {
+        Tamper::Flip { path, byte, bit } => Tamper::Flip { path: real(&path)?, byte, bit },
+        Tamper::Truncate { path, len } => Tamper::Truncate { path: real(&path)?, len },
+        Tamper::Extend { path, extra } => Tamper::Extend { path: real(&path)?, extra },
+        Tamper::SwapChunks { path, i, j } => Tamper::SwapChunks { path: real(&path)?, i, j },
+        Tamper::SwapObjects { a, b } => Tamper::SwapObjects { a: real(&a)?, b: real(&b)? },
+        Tamper::ReplaceObject { dst, src } => Tamper::ReplaceObject { dst: real(&dst)?, src: real(&src)? },
+        Tamper::Cbor { path, edit } => Tamper::Cbor { path: real(&path)?, edit },
+        Tamper::Rollback => Tamper::Rollback,
+        Tamper::StripAndRelocate { key } => Tamper::StripAndRelocate { key },
+    };
+    match t {
+        Tamper::Flip { path, byte, bit } => {
+            let mut v = c.get(path)?.to_vec();
+            *v.get_mut(*byte)? ^= 1 << bit;
+            c.insert(path.clone(), v.into());
+        }
+        Tamper::Truncate { path, len } => {
+            let v = c.get(path)?.clone();
+            if *len >= v.len() {
+                return None;
+            }
+            c.insert(path.clone(), v.slice(0..*len));
+        }
+        Tamper::Extend { path, extra } => {
+            let mut v = c.get(path)?.to_vec();
+            v.extend_from_slice(extra);
+            c.insert(path.clone(), v.into());
+        }
+        Tamper::SwapChunks { path, i, j } => {
+            let v = c.get(path)?.clone();
+            let mut chunks: Vec<Bytes> = Vec::new();
+            let mut at = 0;
+            while at < v.len() {
+                let end = (at + CS as usize).min(v.len());
+                chunks.push(v.slice(at..end));
+                at = end;
+            }
+            if *i >= chunks.len() || *j >= chunks.len() {
+                return None;
+            }
+            chunks.swap(*i, *j);
+            let out: Vec<u8> = chunks.iter().flat_map(|b| b.iter().copied()).collect();
+            c.insert(path.clone(), out.into());
+        }
+        Tamper::SwapObjects { a, b } => {
+            let (va, vb) = (c.get(a)?.clone(), c.get(b)?.clone());
+            c.insert(a.clone(), vb);
+            c.insert(b.clone(), va);
+        }
+        Tamper::ReplaceObject { dst, src } => {
+            let v = c.get(src)?.clone();
+            c.get(dst)?;
+            c.insert(dst.clone(), v);
+        }
+        Tamper::Cbor { path, edit } => {
+            let doc = c.get(path)?.clone();
+            let base = &sc.base;
+            let old = sc.old_meta.clone();
+            let other = move |name: &str| -> Option<Bytes> {
+                if name == "OLD" { Some(old.clone()) } else { base.get(name).cloned() }
+            };
+            let new = edit_doc(&doc, edit, &other)?;
+            c.insert(path.clone(), new);
+        }
+        Tamper::Rollback => {
+            c.insert("meta/a".into(), sc.old_meta.clone());
+        }
+        Tamper::StripAndRelocate { key } => {
+            let mpath = format!("meta/{key}");
+            let doc = c.get(&mpath)?.clone();
+            let new = edit_doc(&doc, &CborEdit::Remove(STRIP_ALL.iter().map(|x| x.to_string()).collect()), &|_| None)?;
+            c.insert(mpath, new);
+            let payload = c.get(sc.sym.get(&format!("gen/{key}/CUR"))?)?.clone();
+            c.insert(format!("data/{key}"), payload);
+        }
+    }
+    if c == sc.base { None } else { Some(c) }
+}
+
+fn s(x: &str) -> String {
+    x.to_string()
+}
+
+/// Every single-site tamper of the scenario's backend content.
+pub fn sites(sc: &Scenario, bits: &[u8]) -> Vec<Tamper> {
+    let mut out = Vec::new();
+    let paths: Vec<&String> = sc.sym.keys().collect();
+    let content = |name: &String| &sc.base[&sc.sym[name]];
+    for p in &paths {
+        let len = content(p).len();
+        for byte in 0..len {
+            for bit in bits {
+                out.push(Tamper::Flip { path: (*p).clone(), byte, bit: *bit });
+            }
+        }
+        for l in 0..len {
+            out.push(Tamper::Truncate { path: (*p).clone(), len: l });
+        }
+        for extra in [vec![0u8], vec![0xffu8], vec![0u8, 0u8], vec![0xa5u8, 0x5a]] {
+            out.push(Tamper::Extend { path: (*p).clone(), extra });
+        }
+    }
+    let gens: Vec<&String> = paths.iter().copied().filter(|p| p.starts_with("gen/")).collect();
+    let metas: Vec<&String> = paths.iter().copied().filter(|p| p.starts_with("meta/")).collect();
+    for g in &gens {
+        let n = content(g).len().div_ceil(CS as usize);
+        for i in 0..n {
+            for j in i + 1..n {
+                out.push(Tamper::SwapChunks { path: (*g).clone(), i, j });
+            }
+        }
+    }
+    // payload objects between keys and generations; metadata documents between keys
+    for (i, a) in gens.iter().enumerate() {
+        for b in &gens[i + 1..] {
+            out.push(Tamper::SwapObjects { a: (*a).clone(), b: (*b).clone() });
+        }
+        for b in &gens {
+            if a != b {
+                out.push(Tamper::ReplaceObject { dst: (*a).clone(), src: (*b).clone() });
+            }
+        }
+    }
+    for (i, a) in metas.iter().enumerate() {
+        for b in &metas[i + 1..] {
+            out.push(Tamper::SwapObjects { a: (*a).clone(), b: (*b).clone() });
+        }
+        for b in &metas {
+            if a != b {
+                out.push(Tamper::ReplaceObject { dst: (*a).clone(), src: (*b).clone() });
+            }
+        }
+    }
+    out.push(Tamper::Rollback);
+    for k in sc.original.keys() {
+        out.push(Tamper::StripAndRelocate { key: k.clone() });
+    }
+    // CBOR-level edits of every metadata document
+    for mpath in &metas {
+        let doc = content(mpath);
+        let push = |out: &mut Vec<Tamper>, edit: CborEdit| out.push(Tamper::Cbor { path: (*mpath).clone(), edit });
+        let names = field_names(doc);
+        for f in &names {
+            push(&mut out, CborEdit::Remove(vec![f.clone()]));
+            push(&mut out, CborEdit::SetNull(f.clone()));
+        }
+        for fs in [
+            vec!["an", "at"],
+            vec!["an", "at", "av"],
+            vec!["an", "at", "g"],
+            vec!["an", "at", "av", "g"],
+            vec!["an", "at", "av", "g", "m"],
+            vec!["an", "at", "av", "g", "m", "c"],
+            vec!["g", "m"],
+            vec!["c", "av"],
+        ] {
+            push(&mut out, CborEdit::Remove(fs.into_iter().map(s).collect()));
+        }
+        for f in ["n", "an", "at"] {
+            push(&mut out, CborEdit::ZeroBytes(s(f)));
+        }
+        let size = sc.original.get(&key_of(mpath)).map(|o| o.plain.len() as u64).unwrap_or(0);
+        let mut ints: Vec<(&str, u64)> = vec![("s", size + 1), ("s", size + CS), ("s", 0), ("s", size.saturating_sub(1))];
+        for c in [1u64, 8, 15, 17, 32, 0] {
+            ints.push(("c", c));
+        }
+        for av in [0u64, 2, 255] {
+            ints.push(("av", av));
+        }
+        if let Some(Cbor::Integer(m)) = get_field(doc, "m") {
+            let m: u64 = u64::try_from(m).unwrap_or(0);
+            ints.push(("m", m + 1));
+            ints.push(("m", m.saturating_sub(1000)));
+            ints.push(("m", 0));
+        }
+        for (f, v) in ints {
+            push(&mut out, CborEdit::SetInt(s(f), v));
+        }
+        let nt = n_tags(doc);
+        for i in 0..nt {
+            push(&mut out, CborEdit::ZeroTag(i));
+            push(&mut out, CborEdit::RemoveTag(i));
+            for j in i + 1..nt {
+                push(&mut out, CborEdit::SwapTags(i, j));
+            }
+        }
+        push(&mut out, CborEdit::DupLastTag);
+        push(&mut out, CborEdit::StripAndResize(size + 1));
+        push(&mut out, CborEdit::StripAndResize(size + CS + 1));
+        // values taken from another existing document: another key's, and
+        // (for `a`) the older generation's
+        let mut sources: Vec<String> = metas.iter().filter(|m| m != &mpath).map(|m| (*m).clone()).collect();
+        if mpath.as_str() == "meta/a" {
+            sources.push(s("OLD"));
+        }
+        for from in sources {
+            for fs in [
+                vec!["g"],
+                vec!["e"],
+                vec!["n"],
+                vec!["t"],
+                vec!["m"],
+                vec!["s"],
+                vec!["an"],
+                vec!["at"],
+                vec!["an", "at"],
+                vec!["g", "m"],
+                vec!["n", "t"],
+                vec!["n", "t", "g"],
+                vec!["n", "t", "g", "e", "s", "m"],
+                vec!["an", "at", "g"],
+            ] {
+                push(&mut out, CborEdit::CopyFields { fields: fs.into_iter().map(s).collect(), from: from.clone() });
+            }
+        }
+    }
+    out
+}
+
+// ---------------------------------------------------------------------------
+// read battery with the "original bytes or an error" oracle
+
+#[derive(Clone, Debug, PartialEq, Eq, Hash, Serialize, Deserialize)]
+pub enum Read {
+    Get { key: String, range: Option<crate::battery::Rng> },
+    Ranges { key: String, rs: Vec<(u64, u64)> },
+    Head { key: String },
+    List,
+    ListDelim { prefix: Option<String> },
+    ListOff { off: String },
+}
+
+impl Read {
+    pub fn kind(&self) -> &'static str {
+        use crate::battery::Rng;
+        match self {
+            Read::Get { range: None, .. } => "get",
+            Read::Get { range: Some(Rng::B(..)), .. } => "get+bounded",
+            Read::Get { range: Some(Rng::O(_)), .. } => "get+offset",
+            Read::Get { range: Some(Rng::S(_)), .. } => "get+suffix",
+            Read::Ranges { .. } => "get_ranges",
+            Read::Head { .. } => "head",
+            Read::List => "list",
+            Read::ListDelim { .. } => "list_with_delimiter",
+            Read::ListOff { .. } => "list_with_offset",
+        }
+    }
+}
+
+fn boundaries(len: u64) -> Vec<u64> {
+    let cs = CS;
+    let mut v = vec![0, 1, cs - 1, cs, cs + 1, len.saturating_sub(1), len, len + 1];
+    v.sort();
+    v.dedup();
+    v
+}
+
+/// Reads for one key: `full` = every range kind at every boundary.
+pub fn reads_for(key: &str, len: u64, full: bool, out: &mut Vec<Read>) {
+    use crate::battery::Rng;
+    let k = key.to_string();
+    out.push(Read::Get { key: k.clone(), range: None });
+    out.push(Read::Head { key: k.clone() });
+    if !full {
+        out.push(Read::Ranges { key: k.clone(), rs: vec![(0, len.max(1))] });
+        return;
+    }
+    let b = boundaries(len);
+    let mut pairs = Vec::new();
+    for (i, a) in b.iter().enumerate() {
+        for z in &b[i + 1..] {
+            pairs.push((*a, *z));
+        }
+    }
+    for (a, z) in &pairs {
+        out.push(Read::Get { key: k.clone(), range: Some(Rng::B(*a, *z)) });
+        out.push(Read::Ranges { key: k.clone(), rs: vec![(*a, *z)] });
+    }
+    for a in &b {
+        out.push(Read::Get { key: k.clone(), range: Some(Rng::O(*a)) });
+        out.push(Read::Get { key: k.clone(), range: Some(Rng::S(*a)) });
+    }
+    let n = pairs.len();
+    for i in 0..n {
+        // only in-bounds combinations can succeed; keep the others too, they
+        // must fail or answer the original bytes
+        out.push(Read::Ranges { key: k.clone(), rs: vec![pairs[i], pairs[(i + n / 2) % n]] });
+    }
+    out.push(Read::Ranges { key: k.clone(), rs: vec![(0, 1), (len.saturating_sub(1), len)] });
+    out.push(Read::Ranges { key: k.clone(), rs: vec![(0, CS.min(len.max(1))), (1, 2)] });
+}
+
+pub fn list_reads(out: &mut Vec<Read>) {
+    out.push(Read::List);
+    out.push(Read::ListDelim { prefix: None });
+    out.push(Read::ListDelim { prefix: Some("a".into()) });
+    out.push(Read::ListOff { off: "0".into() });
+}
+
+/// The bytes the original object must answer for a range request, by the
+/// object_store range rules (`None` = the request is invalid for this
+/// length and cannot succeed with original bytes).
+pub fn expect_range(plain: &[u8], r: &Option<crate::battery::Rng>) -> Option<Vec<u8>> {
+    use crate::battery::Rng;
+    let len = plain.len() as u64;
+    let (a, b) = match r {
+        None => (0, len),
+        Some(Rng::B(a, b)) => {
+            if b <= a || *a >= len {
+                return None;
+            }
+            (*a, (*b).min(len))
+        }
+        Some(Rng::O(o)) => {
+            if *o >= len {
+                return None;
+            }
+            (*o, len)
+        }
+        Some(Rng::S(n)) => (len.saturating_sub(*n), len),
+    };
+    Some(plain[a as usize..b as usize].to_vec())
+}
+
+/// Outcome of one read against the oracle.
+#[derive(Clone, Debug, PartialEq, Eq)]
+pub enum Verdict {
+    /// answered, and exactly with original bytes / sizes
+    Original,
+    /// failed (any error)
+    Failed,
+    /// answered with something that was never written: the violation
+    Wrong(String),
+}
+
+#[derive(Default, Clone, Debug)]
+pub struct SoftStats {
+    /// listing / head answers whose e_tag or last_modified differ from the
+    /// original although sizes are right (not part of the verdict)
+    pub meta_field_deviations: u64,
+    /// listing entries for keys of the scenario that were missing (skipped)
+    pub listing_entries_skipped: u64,
+}
+
+fn check_entries(
+    sc: &Scenario,
+    entries: &[object_store::ObjectMeta],
+    expect_keys: &[&str],
+    soft: &mut SoftStats,
+) -> Verdict {
+    for e in entries {
+        let loc = e.location.to_string();
+        match sc.original.get(&loc) {
+            None => return Verdict::Wrong(format!("listing reports a key that was never written: {loc}")),
+            Some(o) => {
+                if e.size != o.plain.len() as u64 {
+                    return Verdict::Wrong(format!("listing reports size {} for {loc}, written {}", e.size, o.plain.len()));
+                }
+                if e.e_tag != o.e_tag || e.last_modified.timestamp_millis() != o.lm_ms {
+                    soft.meta_field_deviations += 1;
+                }
+            }
+        }
+    }
+    for k in expect_keys {
+        if sc.original.contains_key(*k) && !entries.iter().any(|e| e.location.as_ref() == *k) {
+            soft.listing_entries_skipped += 1;
+        }
+    }
+    Verdict::Original
+}
+
+pub async fn do_read(sc: &Scenario, store: &dyn ObjectStore, rd: &Read, soft: &mut SoftStats) -> Verdict {
+    match rd {
+        Read::Get { key, range } => {
+            let plain = &sc.original[key].plain;
+            let opts = GetOptions {
+                range: range.map(|r| match r {
+                    crate::battery::Rng::B(a, b) => GetRange::Bounded(a..b),
+                    crate::battery::Rng::O(o) => GetRange::Offset(o),
+                    crate::battery::Rng::S(n) => GetRange::Suffix(n),
+                }),
+                ..Default::default()
+            };
+            let res = match store.get_opts(&Path::from(key.as_str()), opts).await {
+                Err(_) => return Verdict::Failed,
+                Ok(r) => r,
+            };
+            let size = res.meta.size;
+            let body = match res.bytes().await {
+                Err(_) => return Verdict::Failed,
+                Ok(b) => b,
+            };
+            if size != plain.len() as u64 {
+                return Verdict::Wrong(format!("get reports size {size}, written {}", plain.len()));
+            }
+            match expect_range(plain, range) {
+                Some(exp) if exp == body.as_ref() => Verdict::Original,
+                Some(exp) => Verdict::Wrong(format!(
+                    "get answered {} bytes that are not the written ones (expected {} bytes)",
+                    body.len(),
+                    exp.len()
+                )),
+                None => Verdict::Wrong(format!("get answered {} bytes for a range outside the object", body.len())),
+            }
+        }
+        Read::Ranges { key, rs } => {
+            let plain = &sc.original[key].plain;
+            let ranges: Vec<std::ops::Range<u64>> = rs.iter().map(|(a, b)| *a..*b).collect();
+            match store.get_ranges(&Path::from(key.as_str()), &ranges).await {
+                Err(_) => Verdict::Failed,
+                Ok(v) => {
+                    if v.len() != rs.len() {
+                        return Verdict::Wrong(format!("get_ranges answered {} bodies for {} ranges", v.len(), rs.len()));
+                    }
+                    for ((a, b), body) in rs.iter().zip(&v) {
+                        match expect_range(plain, &Some(crate::battery::Rng::B(*a, *b))) {
+                            Some(exp) if exp == body.as_ref() => {}
+                            _ => {
+                                return Verdict::Wrong(format!(
+                                    "get_ranges answered {} bytes for {a}..{b} that are not the written ones",
+                                    body.len()
+                                ));
+                            }
+                        }
+                    }
+                    Verdict::Original
+                }
+            }
+        }
+        Read::Head { key } => {
+            let o = &sc.original[key];
+            match store.head(&Path::from(key.as_str())).await {
+                Err(_) => Verdict::Failed,
+                Ok(m) => {
+                    if m.size != o.plain.len() as u64 {
+                        return Verdict::Wrong(format!("head reports size {}, written {}", m.size, o.plain.len()));
+                    }
+                    if m.e_tag != o.e_tag || m.last_modified.timestamp_millis() != o.lm_ms {
+                        soft.meta_field_deviations += 1;
+                    }
+                    Verdict::Original
+                }
+            }
+        }
+        Read::List => match store.list(None).try_collect::<Vec<_>>().await {
+            Err(_) => Verdict::Failed,
+            Ok(v) => check_entries(sc, &v, &["a", "a/b", "c"], soft),
+        },
+        Read::ListOff { off } => {
+            match store.list_with_offset(None, &Path::from(off.as_str())).try_collect::<Vec<_>>().await {
+                Err(_) => Verdict::Failed,
+                Ok(v) => check_entries(sc, &v, &["a", "a/b", "c"], soft),
+            }
+        }
+        Read::ListDelim { prefix } => {
+            let p = prefix.as_ref().map(|p| Path::from(p.as_str()));
+            match store.list_with_delimiter(p.as_ref()).await {
+                Err(_) => Verdict::Failed,
+                Ok(r) => {
+                    let exp: &[&str] = if prefix.is_none() { &["a", "c"] } else { &["a/b"] };
+                    check_entries(sc, &r.objects, exp, soft)
+                }
+            }
+        }
+    }
+}
+
+/// Result of checking one tamper site.
+#[derive(Default)]
+pub struct SiteOut {
+    pub reads: u64,
+    pub failed: u64,
+    pub original: u64,
+    pub wrong: Vec<(Read, String)>,
+    /// the reads that failed
+    pub failed_reads: Vec<Read>,
+    pub soft: SoftStats,
+}
+
+/// Reads everything through a FRESH `EncryptedStore` (cold cache, same key)
+/// over a fresh inner store holding `content`.
+pub async fn check_content(sc: &Scenario, content: &Content, touched: &[String], strict: bool) -> SiteOut {
+    let inner = restore(content);
+    let store = if strict { enc_strict(inner) } else { enc(inner) };
+    let mut reads = Vec::new();
+    for (k, o) in &sc.original {
+        reads_for(k, o.plain.len() as u64, touched.contains(k), &mut reads);
+    }
+    list_reads(&mut reads);
+    let mut out = SiteOut::default();
+    for rd in &reads {
+        out.reads += 1;
+        match do_read(sc, store.as_ref(), rd, &mut out.soft).await {
+            Verdict::Original => out.original += 1,
+            Verdict::Failed => {
+                out.failed += 1;
+                out.failed_reads.push(rd.clone());
+            }
+            Verdict::Wrong(why) => out.wrong.push((rd.clone(), why)),
+        }
+    }
+    out
+}
+
+// ---------------------------------------------------------------------------
+// inspection of what the store wrote (leak part)
+
+/// Re-derives the GCM nonce of chunk `idx` from the base nonce stored in
+/// the metadata document: salt(4) || LE64(counter + idx).
+pub fn chunk_nonce(base: &[u8], idx: u64) -> [u8; 12] {
+    let mut n = [0u8; 12];
+    n.copy_from_slice(&base[..12]);
+    let mut ctr = [0u8; 8];
+    ctr.copy_from_slice(&n[4..12]);
+    let c = u64::from_le_bytes(ctr).wrapping_add(idx);
+    n[4..12].copy_from_slice(&c.to_le_bytes());
+    n
+}
+
+/// True when some window of `w` consecutive plaintext bytes occurs in `hay`.
+pub fn leaks(plain: &[u8], hay: &[u8], w: usize) -> bool {
+    if plain.len() < w || hay.len() < w {
+        return false;
+    }
+    let windows: std::collections::HashSet<&[u8]> = plain.windows(w).collect();
+    hay.windows(w).any(|x| windows.contains(x))
+}
